@@ -12,9 +12,13 @@ ServerSet's isinstance check) run on top of it unchanged.  What it represents (t
   oldest first, only when the harness calls `t_deliver()` (kazoo's handler runs watch callbacks
   sequentially from one queue);
 * reads issued by the watch recipes (`get`/`exists`/`get_children` on the path) are answered
-  at once; a read of a *member* node (`get(base/child)`, issued by the ServerSet's notification
-  worker) is a request in flight: it is *served* (snapshot of the tree taken) when the harness
-  calls `t_serve()` and *returned* to the caller when the harness calls `t_return()`.
+  at once — so is the `get_children` of a listing by the consumer (`ServerSet.__iter__`); a read
+  of a *member* node (`get(base/child)`, issued by the ServerSet's notification worker or by a
+  listing) is a request in flight: it is *served* (snapshot of the tree taken) when the harness
+  calls `t_serve(owner)` and *returned* to the caller when the harness calls `t_return(owner)`.
+  Every caller (`owner`: 'w' = any greenlet the harness has not named, i.e. the notification
+  worker; otherwise the key `owner_of(greenlet)` gives — a listing) has at most one read in
+  flight; reads of different owners coexist and are stepped independently.
 """
 import json
 
@@ -36,8 +40,10 @@ class FakeZk(KazooClient):
         self.data_watch = []     # one-shot watchers left by get/exists on the path
         self.child_watch = []    # one-shot watchers left by get_children on the path
         self.pending = []        # fired watch events, oldest first: (kind, watcher, event)
-        self.read = None         # the member read in flight, if any
+        self.reads = {}          # owner -> the member read it has in flight
         self.requested = []      # names of member reads, in request order
+        self.requested_by = []   # … and who issued them
+        self.owner_of = None     # greenlet -> owner key of a listing (None: the worker)
         self._fake_connected = False
 
     # ------------------------------------------------------------------ lifecycle
@@ -79,16 +85,26 @@ class FakeZk(KazooClient):
                 self.data_watch.append(watch)
             return b'', self._stat()
         assert path.startswith(self.base + '/') and watch is None, path
-        assert self.read is None, 'two member reads in flight'
+        owner = self.owner_of(gevent.getcurrent()) if self.owner_of else None
+        if owner is None:
+            owner = 'w'
+        assert owner not in self.reads, 'two member reads in flight for %r' % (owner,)
         name = path[len(self.base) + 1:]
-        r = self.read = {'name': name, 'phase': 'requested', 'gate': Event(), 'data': None}
+        r = self.reads[owner] = {'name': name, 'phase': 'requested', 'gate': Event(), 'data': None,
+                                 'owner': owner}
         self.requested.append(name)
+        self.requested_by.append(owner)
         r['gate'].wait()
-        self.read = None
+        del self.reads[owner]
         if r['data'] is None:
             raise NoNodeError()
         z = r['czxid']
         return r['data'], ZnodeStat(z, z, 0, 0, 0, 0, 0, 0, len(r['data']), 0, z)
+
+    @property
+    def read(self):
+        """the notification worker's read in flight"""
+        return self.reads.get('w')
 
     def get_children(self, path, watch=None, include_data=False):
         assert path == self.base, path
@@ -139,15 +155,15 @@ class FakeZk(KazooClient):
         g = gevent.spawn(w, ev)
         return kind, g
 
-    def t_serve(self):
-        r = self.read
+    def t_serve(self, owner='w'):
+        r = self.reads.get(owner)
         assert r is not None and r['phase'] == 'requested'
         r['phase'] = 'served'
         if r['name'] in self.kids:
             r['data'], r['czxid'] = self.kids[r['name']]
 
-    def t_return(self):
-        r = self.read
+    def t_return(self, owner='w'):
+        r = self.reads.get(owner)
         assert r is not None and r['phase'] == 'served'
         r['phase'] = 'returned'
         r['gate'].set()
